@@ -6,6 +6,9 @@ package main
 // <lag>`): a new StateMachine over the same "disk" (Open reports the index of
 // the last update the disk kept), recovery from the latest snapshot record and
 // replay of the log after it. B must end with A's membership and verdicts.
+// The same log is also fed to a replica started with config.IsNonVoting and one
+// started with config.IsWitness: verdict and membership after every entry must
+// be those of the full member (the rules do not depend on the replica's kind).
 //
 // case line:   <id> sm ordered=<0|1> | op ; op ; ...
 // ops:         c <type> <replica> <addrhex> <ccid> <init>     config change entry at the next index
@@ -137,7 +140,13 @@ type smReplica struct {
 }
 
 func newSMReplica(id uint64, ordered bool, disk *smDisk, ss pb.Snapshot) (*smReplica, error) {
-	cfg := config.Config{ShardID: 1, ReplicaID: id, OrderedConfigChange: ordered}
+	return newSMReplicaOfKind(id, ordered, "full", disk, ss)
+}
+
+// kind: "full", "nonvoting" (config.IsNonVoting) or "witness" (config.IsWitness)
+func newSMReplicaOfKind(id uint64, ordered bool, kind string, disk *smDisk, ss pb.Snapshot) (*smReplica, error) {
+	cfg := config.Config{ShardID: 1, ReplicaID: id, OrderedConfigChange: ordered,
+		IsNonVoting: kind == "nonvoting", IsWitness: kind == "witness"}
 	node := newSMNode(id)
 	s := hooks.NewOnDiskStateMachine(cfg, &smDiskSM{disk: disk}, &smSnapshotter{ss: ss}, node)
 	if _, err := s.OpenOnDiskStateMachine(); err != nil {
@@ -161,6 +170,19 @@ func smChangeEntry(index uint64, cc pb.ConfigChange) pb.Entry {
 	return pb.Entry{Type: pb.ConfigChangeEntry, Index: index, Term: 1, Key: index, Cmd: pb.MustMarshal(&cc)}
 }
 
+func verdictWord(rejected bool) string {
+	if rejected {
+		return "rejected"
+	}
+	return "applied"
+}
+
+func ccOf(e pb.Entry) pb.ConfigChange {
+	var cc pb.ConfigChange
+	pb.MustUnmarshal(&cc, e.Cmd)
+	return cc
+}
+
 func verdictChar(rejected bool) string {
 	if rejected {
 		return "R"
@@ -173,10 +195,17 @@ func runSMCase(id, head, body, line string, obs *vh.LineWriter, st *vh.Stats) {
 	diskA, diskB := &smDisk{}, &smDisk{}
 	a, errA := newSMReplica(1, ordered, diskA, pb.Snapshot{})
 	b, errB := newSMReplica(2, ordered, diskB, pb.Snapshot{})
-	if errA != nil || errB != nil {
+	// the same log on replicas started as non-voting and as witness (never restarted)
+	nv, errC := newSMReplicaOfKind(3, ordered, "nonvoting", &smDisk{}, pb.Snapshot{})
+	wi, errD := newSMReplicaOfKind(4, ordered, "witness", &smDisk{}, pb.Snapshot{})
+	if errA != nil || errB != nil || errC != nil || errD != nil {
 		obs.Printf("%s 0 OPENFAILED\n", id)
 		return
 	}
+	kinds := []struct {
+		name string
+		r    *smReplica
+	}{{"non-voting", nv}, {"witness", wi}}
 	var log []pb.Entry // log[i] has index i+1
 	var ss pb.Snapshot
 	restarts, replayedCC, coveredCC := 0, 0, 0
@@ -206,9 +235,22 @@ func runSMCase(id, head, body, line string, obs *vh.LineWriter, st *vh.Stats) {
 				e = smChangeEntry(index, cc)
 			}
 			log = append(log, e)
+			before := a.s.GetMembership()
 			var ea, eb error
 			p := vh.Catch(func() { ea = a.apply(e) })
 			p2 := vh.Catch(func() { eb = b.apply(e) })
+			for _, k := range kinds {
+				ek := e
+				if k.name == "witness" && f[0] == "u" {
+					// a witness is sent the metadata of ordinary entries only
+					ek = pb.Entry{Type: pb.MetadataEntry, Index: index, Term: 1}
+				}
+				var err error
+				pk := vh.Catch(func() { err = k.r.apply(ek) })
+				if pk != p || (err != nil) != (ea != nil) {
+					bad(n, fmt.Sprintf("replica started as %s fails differently from a full member: %q %v / %q %v", k.name, pk, err, p, ea))
+				}
+			}
 			if p != "" || p2 != "" || ea != nil || eb != nil {
 				if p != p2 {
 					bad(n, "the two replicas do not fail alike: "+p+" / "+p2)
@@ -231,10 +273,25 @@ func runSMCase(id, head, body, line string, obs *vh.LineWriter, st *vh.Stats) {
 				} else if ra != rb {
 					bad(n, "config change entry accepted on one replica and rejected on the other")
 				}
+				for _, k := range kinds {
+					rk, ok := k.r.node.rejected[index]
+					if !ok {
+						bad(n, "config change entry not reported to the node on the replica started as "+k.name)
+					} else if rk != ra {
+						bad(n, fmt.Sprintf("config change entry %s on a full member but %s on the replica started as %s (ordered=%v, request id %d, membership at %d)",
+							verdictWord(ra), verdictWord(rk), k.name, ordered, ccOf(e).ConfigChangeId, before.ConfigChangeId))
+					}
+				}
 				st.Count("sm.change." + verdictChar(ra))
 				obs.Printf("%s %d %s %s\n", id, n, verdictChar(ra), showMembership(a.s.GetMembership()))
 			}
 			compare(n, "after entry "+strconv.FormatUint(index, 10))
+			ma := showMembership(a.s.GetMembership())
+			for _, k := range kinds {
+				if mk := showMembership(k.r.s.GetMembership()); mk != ma {
+					bad(n, fmt.Sprintf("after entry %d: membership of the replica started as %s differs from a full member's: %s vs %s", index, k.name, mk, ma))
+				}
+			}
 		case "snap":
 			k := b.s.GetLastApplied()
 			if k == 0 || k == ss.Index {
@@ -385,10 +442,14 @@ func genSMCase(r *vh.Rand) string {
 				}
 			}
 			cc.ConfigChangeId = cur.ConfigChangeId
-			if r.Chance(1, 8) {
+			if r.Chance(1, 5) {
 				cc.ConfigChangeId = uint64(r.Intn(int(index) + 2))
 			}
 			emitCC(cc)
+			if r.Chance(1, 6) { // a concurrent request built on the same membership view
+				emitCC(pb.ConfigChange{Type: pb.ConfigChangeType([]int32{0, 1, 2, 3}[r.Intn(4)]), ReplicaID: uint64(1 + r.Intn(8)),
+					Address: genAddr(r), ConfigChangeId: cur.ConfigChangeId})
+			}
 			if r.Chance(2, 3) { // an update after the change: the disk's index moves past it
 				index++
 				ops = append(ops, "u")
